@@ -43,6 +43,7 @@ type paceLoop struct {
 	per, frq int64                 // constant pacer
 	horizon  func(t int64) bool    // stop the loop here (linear pacer leaving its domain)
 	always   bool                  // run in every tier and for every seed
+	rate     func(t int64) float64 // the declared instantaneous rate in hits per second (derivative of the schedule); nil = not asked
 }
 
 func divWitness(a, b uint64) KV {
@@ -60,7 +61,11 @@ func constantLoop(freq int, per time.Duration) *paceLoop {
 	} else {
 		kv["idiv"] = divWitness(0, 0)
 	}
-	return &paceLoop{kind: "constant", pacer: vegeta.ConstantPacer{Freq: freq, Per: per}, reset: kv, per: int64(per), frq: int64(freq)}
+	pl := &paceLoop{kind: "constant", pacer: vegeta.ConstantPacer{Freq: freq, Per: per}, reset: kv, per: int64(per), frq: int64(freq)}
+	if freq > 0 && per > 0 {
+		pl.rate = func(int64) float64 { return float64(freq) / float64(per) * 1e9 }
+	}
+	return pl
 }
 
 func sineLoop(period time.Duration, mean, amp int, offset float64) *paceLoop {
@@ -74,10 +79,14 @@ func sineLoopPer(period time.Duration, mean, amp int, per time.Duration, offset 
 	m, a, p := float64(mean)/float64(per), float64(amp)/float64(per), float64(period)
 	kv := KV{"kind": "sine", "invalid": invalid, "unlimited": false, "qe4": int64(math.Ceil((m + math.Abs(a)) * 1e4)),
 		"text": fmt.Sprintf("Sine{period %s mean %d/%s amp %d/%s offset %.4f}", period, mean, per, amp, per, offset)}
-	return &paceLoop{kind: "sine", pacer: sp, reset: kv, schedule: func(t int64) float64 {
+	pl := &paceLoop{kind: "sine", pacer: sp, reset: kv, schedule: func(t int64) float64 {
 		// H = M t + (A P / 2pi) (cos(O) - cos(O + 2 pi t / P))
 		return m*float64(t) + a*p/(2*math.Pi)*(math.Cos(offset)-math.Cos(offset+2*math.Pi*float64(t)/p))
 	}}
+	if !invalid {
+		pl.rate = func(t int64) float64 { return (m + a*math.Sin(offset+2*math.Pi*float64(t)/p)) * 1e9 } // dH/dt
+	}
+	return pl
 }
 
 func linearLoop(start int, per time.Duration, slope float64) *paceLoop {
@@ -90,9 +99,13 @@ func linearLoop(start int, per time.Duration, slope float64) *paceLoop {
 	}
 	kv := KV{"kind": "linear", "invalid": invalid, "unlimited": unlimited,
 		"text": fmt.Sprintf("Linear{start %d/%s slope %g}", start, per, slope)}
-	return &paceLoop{kind: "linear", pacer: lp, reset: kv,
+	pl := &paceLoop{kind: "linear", pacer: lp, reset: kv,
 		schedule: func(t int64) float64 { x := float64(t) / 1e9; return slope*x*x/2 + b*x },
 		horizon:  func(t int64) bool { return slope < 0 && slope*float64(t)/1e9+b < 0.3*b }}
+	if !invalid && !unlimited {
+		pl.rate = func(t int64) float64 { return slope*float64(t)/1e9 + b }
+	}
+	return pl
 }
 
 // run follows the pacer for at most n consultations under a stall history.
@@ -194,6 +207,14 @@ func (pl *paceLoop) run(tr *Tracer, r *rand.Rand, n int, stallMode int) (consult
 		hits++
 		kv = KV{"t": Big(uint64(t))}
 		bounds(kv, t)
+		if pl.rate != nil { // the rate the pacer declares for this instant against the derivative of its schedule, in parts per billion
+			got, want := pl.pacer.Rate(time.Duration(t)), pl.rate(t)
+			dev := math.Abs(got-want) / math.Max(math.Abs(want), 1e-12) * 1e9
+			if !(dev < 1e9) {
+				dev = 1e9
+			}
+			kv["rdev"] = int64(dev)
+		}
 		tr.Emit("Release", kv)
 		if d := stall(); d > 0 && t < math.MaxInt64/2 {
 			tr.Emit("Stall", KV{"d": Big(uint64(d))})
